@@ -211,6 +211,7 @@ let verdict id func rest =
     let plain, avs = split args in
     let r = run_func func plain avs in
     if not r.valid_inputs then Printf.sprintf "(%s skip invalid-input)" id
+    else if r.unsupported <> "" then Printf.sprintf "(%s skip unspecified-%s)" id r.unsupported
     else if r.spec = OBad "fuel" then
       Printf.sprintf "(%s skip unspecified%s)" id (if r.unsupported <> "" then "-" ^ r.unsupported else "")
     else begin
@@ -223,7 +224,8 @@ let verdict id func rest =
         else Printf.sprintf "(%s viol value (impl %s) (spec %s))" id (string_of_obs i) (string_of_obs r.spec)
       | IOk2 d ->
         let (i, closure) = obs_of_impl d in
-        if not (obs_eq i r.spec) then
+        if i = OBad "non-integral float" then Printf.sprintf "(%s skip float-inexact)" id
+        else if not (obs_eq i r.spec) then
           Printf.sprintf "(%s viol value (impl %s) (spec %s))" id (string_of_obs i) (string_of_obs r.spec)
         else if not closure then Printf.sprintf "(%s viol closure (impl %s))" id (string_of_obs i)
         else (match r.extra_check d with
